@@ -53,7 +53,7 @@ def bounded(ctx):
 
 MANIFEST_ENTRY = {
     "text": "For every duration shape (any subset of the designators Y M D T H M S or W alone, 1..10 digits per number, a fraction of 1..9 digits after '.' or ',' on the smallest component) and ALL digit values, the pure-Python _parse_iso8601_duration is proved to return a Duration with exactly the written years and months and a native value within half a microsecond of the exact rational value of the remaining components, to raise a ValueError exactly when that value does not fit a timedelta, and to reject fractional years/months, fractions before the last component and weeks mixed with other units. The compiled parser and the three interval forms are checked bounded against an exact Fraction oracle on both backends.",
-    "note": "Trusted: pyvc, z3/cvc5, A-RE, A-FLOAT (float arithmetic as exact reals; the bounded sweep uses exact Fractions on the real objects). Proof is per shape: 189 shapes quick, more in the thorough tier. Three genuine defects of the Python parser found by refuted obligations and fixed (fractions always divided by 10, fractional weeks truncated; fractional seconds truncated; OverflowError instead of ValueError). Rust defects (coarse W/D/H fractions, u32 wrap-around, OverflowError, 'P1.W', 'P1WT1H') and the float decomposition of durations >= 2^32 s in interval assembly are bounded known findings.",
+    "note": "Trusted: pyvc, z3/cvc5, A-RE, A-FLOAT (float arithmetic as exact reals; the bounded sweep uses exact Fractions on the real objects). Proof is per shape: 189 shapes quick, more in the thorough tier. Three genuine defects of the Python parser found by refuted obligations and fixed (fractions always divided by 10, fractional weeks truncated; fractional seconds truncated; OverflowError instead of ValueError). Rust defects (coarse W/D/H fractions, u32 wrap-around, 'P1.W', 'P1WT1H') and the float decomposition of durations >= 2^32 s in interval assembly are bounded known findings.",
     "technique": "contract-based deductive verification per duration shape (symbolic execution of the real parser with symbolic digits, z3/cvc5); bounded exact-oracle sweeps for the Rust parser and interval assembly",
     "design_ref": "DESIGN.md section 8 (C13), 12",
 }
